@@ -366,17 +366,20 @@ func (e *Evaluator) evalCaseMatch(value *Cell, exprs []Expr) (bool, map[string]*
 				return true, nil, nil
 			}
 		case *ExprArray:
+			// a pattern that does not match only rules out this alternative:
+			// the remaining alternatives of the case are still tried
 			if value.Value.Tag != ValueArray {
-				return false, nil, nil
+				continue
 			}
 
 			array := value.Value.Array
 			if len(array) != len(ex.Items) {
-				return false, nil, nil
+				continue
 			}
 
 			bindings := make(map[string]*Cell)
 
+			matched := true
 			for i, item := range array {
 				exprToMatch := ex.Items[i]
 				match, newBindings, err := e.evalCaseMatch(item, []Expr{exprToMatch})
@@ -384,14 +387,17 @@ func (e *Evaluator) evalCaseMatch(value *Cell, exprs []Expr) (bool, map[string]*
 					return false, nil, err
 				}
 				if !match {
-					return false, nil, nil
+					matched = false
+					break
 				}
 				for k, v := range newBindings {
 					bindings[k] = v
 				}
 			}
 
-			return true, bindings, nil
+			if matched {
+				return true, bindings, nil
+			}
 		case *ExprIdentifier:
 			bindings := make(map[string]*Cell)
 			ident := e.lexer.GetString(&ex.token)
